@@ -627,6 +627,9 @@ func stsSimpleExchange(evs []stsEvRec) (ackIdx int, kv map[string]string, ok boo
 				if t == "sts" {
 					found = true
 				}
+				if strings.HasPrefix(t, "-") {
+					return -1, nil, false // removals in the same line: not the simple shape
+				}
 			}
 			if !found || ackIdx >= 0 {
 				return -1, nil, false
@@ -1018,6 +1021,11 @@ func genSTSLeg(r *rand.Rand, sasl bool) []string {
 	if len(ack) == 0 {
 		ack = []string{"multi-prefix"}
 	}
+	if r.Intn(10) == 0 { // acknowledged removals ("-name"), before or after the name itself
+		rem := Pick(r, "-sts", "-sts", "-multi-prefix", "-", "-sasl")
+		k := r.Intn(len(ack) + 1)
+		ack = append(ack[:k], append([]string{rem}, ack[k:]...)...)
+	}
 	if r.Intn(16) == 0 {
 		out = append(out, "E*\nACK\nx\n"+strings.Join(ack, " ")) // four parameters: not an acknowledgement the code reads
 	}
@@ -1102,6 +1110,9 @@ func fixedSTSScenarios() []Case {
 		out = append(out, cat(hd, []string{"C", "L0,1,1,c", stsLS("sts=duration=100"), stsACK("sts"), "L0,1,1,c", "C", "L0,1,1,c"}))
 		out = append(out, cat(hd, up(), tlsLeg("sts=port=6697", "c"), []string{"C", "L0,1,1,c"}))
 		out = append(out, cat([]string{bits, "6697,600,5"}, []string{"C"}, tlsLeg("sts=preload", "c"), []string{"C", "L0,1,1,c"}))
+		// removals acknowledged in the same line or later
+		out = append(out, cat(hd, []string{"C", "L0,1,1,c", stsLS("sts=port=6697"), stsACK("sts", "-sts"), "L0,1,1,c", "C", "L0,1,1,c", stsLS("sts=port=6697"), stsACK("-sts", "sts"), "L0,1,1,c"}))
+		out = append(out, cat([]string{bits, "6697,600,5"}, []string{"C"}, tlsLeg("sts=duration=900", "c")[:3], []string{stsACK("-sts"), stsACK("multi-prefix"), "C", "L0,1,1,c"}))
 		// acknowledged without having been advertised
 		out = append(out, cat(hd, []string{"C", "L0,1,1,c", stsLS("multi-prefix"), stsACK("sts", "multi-prefix"), "C", "L0,1,1,c"}))
 	}
